@@ -1,7 +1,7 @@
 //! C02 — joining a task returns that task's own result once it finishes (engine: `rt`).
 //!
 //! Case: 1..3 event loops and a history of submissions (values, `None`, `&'static str` and
-//! `String` panics, delays, spins, hooked sleeps, gates), joins on helper threads with
+//! `String` panics, delays, spins, hooked sleeps, gates), joins on helper threads and from inside other tasks with
 //! generated timeouts — issued before or after completion, or held between the waiter's
 //! first look at the results and its registration until the task has finished (hook H1) —
 //! releases and sleeps.
@@ -23,10 +23,11 @@ fn body() -> impl Strategy<Value = Body> {
         1 => Just(Body::ReturnNone),
         2 => Just(Body::PanicStatic),
         2 => Just(Body::PanicString),
-        3 => (0u8..50).prop_map(Body::Delay),
+        3 => prop_oneof![3 => 0u8..50, 2 => 50u8..200].prop_map(Body::Delay),
         1 => (0u8..10).prop_map(Body::Spin),
         1 => (1u8..20).prop_map(Body::Usleep),
         2 => Just(Body::GateSuspended),
+        4 => (0u8..4, prop_oneof![3 => 30u16..120, 1 => 120u16..1500]).prop_map(|(back, timeout_ms)| Body::JoinEarlier { back, timeout_ms }),
     ]
 }
 
@@ -64,6 +65,7 @@ pub fn judge(c: &Case, run: Run) -> Outcome {
     o.nontrivial = !l.joins.is_empty() && (held > 0 || panics > 0 || used >= 2);
     o = o
         .class_if(held > 0, "completion-fell-between-first-check-and-registration")
+        .class_if(l.joins.iter().any(|j| j.in_task), "join-made-from-inside-a-task")
         .class_if(panics > 0, "joined-task-panicked")
         .class_if(used >= 2, "tasks-ran-on-2+loop-threads")
         .class_if(l.joins.iter().any(|j| j.kind == "timeout"), "some-join-timed-out")
@@ -81,7 +83,7 @@ pub fn judge(c: &Case, run: Run) -> Outcome {
         }
         let t = &l.tasks[j.task];
         let deadline = j.called + j.timeout_ms * 1_000_000;
-        let what = format!("join (timeout {} ms{}) on task {} {:?}", j.timeout_ms, if j.held { ", waiter held until the task had finished" } else { "" }, t.k, t.body);
+        let what = format!("join (timeout {} ms{}{}) on task {} {:?}", j.timeout_ms, if j.held { ", waiter held until the task had finished" } else { "" }, if j.in_task { ", made from inside another task" } else { "" }, t.k, t.body);
         match j.kind.as_str() {
             "value" => {
                 let ok = !matches!(t.body, Body::ReturnNone | Body::PanicStatic | Body::PanicString) && j.v == Some(rt::expected_value(t.k) as u64);
@@ -127,7 +129,9 @@ pub fn judge(c: &Case, run: Run) -> Outcome {
                 return o;
             }
         }
-        if j.kind != "timeout" && t.ended != 0 {
+        // a waiter that is itself a task helps with the queue while it waits and may be busy
+        // with another task when the result arrives: no promptness claim for it
+        if j.kind != "timeout" && t.ended != 0 && !j.in_task {
             let due = t.ended.max(j.called) + PROMPT_NS;
             if j.returned > due {
                 o.set_fail(
@@ -170,7 +174,7 @@ pub fn main(args: &Args) -> i32 {
     if ev.has_violations() {
         return ev.finish();
     }
-    let rule = "fresh child per case: event loops, 2..13 ops out of submit (value/None/static+String panic/delay/spin/hooked sleep/gate), join and held join (timeouts 30 ms .. 3 s), release, sleep; non-trivial = a join whose task finished between the waiter's first check and its registration, or a joined task panicked, or tasks ran on >= 2 loop threads";
+    let rule = "fresh child per case: event loops, 2..13 ops out of submit (value/None/static+String panic/delay/spin/hooked sleep/gate), join and held join (timeouts 30 ms .. 3 s), join made by a task body, release, sleep; non-trivial = a join whose task finished between the waiter's first check and its registration, or a joined task panicked, or tasks ran on >= 2 loop threads";
     ev.add(vkit::run_prop(
         &RunCfg { property: "C02", sub: "1-loop", rule, seed: args.seed, cases: args.cases(500, 6_000), shards: 12, max_shrink_iters: 80 },
         || strategy(1, 1),
